@@ -116,7 +116,12 @@ func staticCodePipeline(c *Ctx, g *load.G) {
 				}
 				// the buffer that collects the kept lines does not still hold the raw text
 				if outBuf == execBuf {
-					if p.evIndex("call", iSplit, func(s string) bool { return s == execBuf+".Reset()" }) < 0 || p.evIndex("call", iSplit, func(s string) bool { return s == execBuf+".Reset()" }) > iLoop {
+					// (String() copies the text out: the buffer may be reset as soon as the text was taken)
+					iTaken := p.evIndex("call", iExec, func(s string) bool { return s == execBuf+".String()" })
+					if iTaken < 0 || iTaken > iSplit {
+						iTaken = iSplit
+					}
+					if p.evIndex("call", iTaken, func(s string) bool { return s == execBuf+".Reset()" }) < 0 || p.evIndex("call", iTaken, func(s string) bool { return s == execBuf+".Reset()" }) > iLoop {
 						tail = append(tail, "the kept lines are appended to the buffer that still holds the raw template text")
 					}
 				}
